@@ -51,6 +51,7 @@ THEOREMS = [
     'C09_volume_gets_leaf_material', 'C09_compositions_exact',
     'C09_compositions_distinct', 'C09_geomcomp_name_has_composition',
     'C09_write_compositions', 'C09_block_head', 'C09_block_written',
+    'C09_normal_form_accepted',
     'C09_point_gets_leaf_material_linked', 'C09_density_type_by_sign',
     'C09_point_composition_written_linked', 'C09_fill_models_agree_linked',
     'C09_lattice_element_material_linked',
